@@ -54,6 +54,16 @@ fn check_inner(pattern: &str, text: &str, bl: Option<usize>) -> Option<String> {
         let must_err = err_at.map_or(false, |e| e < consumed.max(1));
         for t in templates() {
             let got = re.try_replacen(text, limit, t);
+            if !t.contains('$') {
+                // "a template without `$`, NoExpand of the same string and a closure returning it give identical results": also WHETHER the
+                // result is an error (a search error met while looking one match past the limit included)
+                let a = re.try_replacen(text, limit, NoExpand(t)).map(|c| c.into_owned()).map_err(|e| format!("{:?}", e));
+                let b = re.try_replacen(text, limit, |_: &Captures<'_>| t.to_string()).map(|c| c.into_owned()).map_err(|e| format!("{:?}", e));
+                let g = re.try_replacen(text, limit, t).map(|c| c.into_owned()).map_err(|e| format!("{:?}", e));
+                if a != g || b != g {
+                    return Some(format!("limit {}: template {:?} / NoExpand / closure disagree: {:?} / {:?} / {:?}", limit, t, g, a, b));
+                }
+            }
             if must_err {
                 if got.is_ok() && err_at == Some(0) {
                     return Some(format!("search error swallowed: try_replacen({:?}, {}, {:?}) = {:?}", text, limit, t, got));
@@ -108,7 +118,7 @@ fn check_inner(pattern: &str, text: &str, bl: Option<usize>) -> Option<String> {
 }
 
 fn extra_patterns() -> Vec<&'static str> {
-    vec![r"(?<n>a)(?=b)", r"(a)|(?<n>b)(?!c)", r"(?<n>\d)?x(?=.)", r"(?<=a)(?<n>b)?"]
+    vec![r"(?<n>a)(?=b)", r"(a)|(?<n>b)(?!c)", r"(?<n>\d)?x(?=.)", r"(?<=a)(?<n>b)?", r"a|(?:b+b+)+(?=c)", r"(a)|(?:b+b+)+(?=c)"]
 }
 
 impl Family for Replace {
@@ -117,7 +127,9 @@ impl Family for Replace {
         pats.extend(extra_patterns());
         for bl in [None, Some(1usize), Some(3)] {
             for p in &pats {
-                for t in corpus::texts() {
+                let mut texts = corpus::texts();
+                texts.extend(vec!["a-a-bbbbbbbbbbbb", "a-bbbbbbbbbbbb", "bbbbbbbbbbbb-a"]);
+                for t in texts {
                     budget.evals += 1;
                     if let Some(d) = check(p, t, bl) {
                         return Some((json!({"pattern": p, "text": t, "backtrack_limit": bl}), d));
